@@ -246,7 +246,8 @@ fn determine_target(
         } else {
             target
         };
-        if let Some(pos) = without_scheme.find('/') {
+        // the authority ends at the path or, when the path is empty, at the query
+        if let Some(pos) = without_scheme.find(['/', '?']) {
             host = without_scheme[..pos].to_string();
             path = without_scheme[pos..].to_string();
         } else {
